@@ -57,13 +57,10 @@ def cfg(fixed, invariants=(), props=(), dump=False):
 
 def tlc(scratch, name, reqs, fixed, **kw):
     mod = "CL_" + name.replace("-", "_")
-    with open(os.path.join(vlib.SPEC, mod + ".tla"), "w") as f:
-        f.write(module_text(mod, reqs))
-    try:
-        return vlib.run_tlc(scratch, mod, cfg(fixed, **{k: v for k, v in kw.items() if k in ("invariants", "props", "dump")}),
-                            name=kw.get("runname", mod), workers=kw.get("workers"), env=kw.get("env"), timeout=1500)
-    finally:
-        os.remove(os.path.join(vlib.SPEC, mod + ".tla"))
+    # the generated constants module lives only in the run's private copy of spec/
+    return vlib.run_tlc(scratch, mod, cfg(fixed, **{k: v for k, v in kw.items() if k in ("invariants", "props", "dump")}),
+                        name=kw.get("runname", mod), workers=kw.get("workers"), env=kw.get("env"), timeout=1500,
+                        extra_files={mod + ".tla": module_text(mod, reqs)})
 
 
 def run(prop, tier, seed, configs, own, rule, maxscripts, batch=None):
